@@ -17,7 +17,7 @@ use warp_core::echo_verif::{accum, state as hook};
 use warp_core::wsc::{build_one_warp_input, validate_wsc, write_wsc_one_warp, WarpView, WscFile};
 use warp_core::{
     AtomPayload, AttachmentKey, AttachmentOwner, AttachmentPlane, AttachmentValue, EdgeId, EdgeKey, EdgeRecord,
-    GraphStore, NodeId, NodeKey, NodeRecord, TypeId, WarpId, WarpInstance, WarpOp, WarpState,
+    GraphStore, NodeId, NodeKey, NodeRecord, PortalInit, TypeId, WarpId, WarpInstance, WarpOp, WarpState,
 };
 
 pub fn streams() -> Vec<Stream> {
@@ -736,6 +736,196 @@ fn gen_astate(rng: &mut Rng, children: bool, spice: bool) -> AState {
     st
 }
 
+
+// ------------------------------------------------------------------ adversarial portal topology
+
+fn key_na(w: Id, n: Id) -> AttachmentKey {
+    AttachmentKey { owner: AttachmentOwner::Node(NodeKey { warp_id: WarpId(w), local_id: NodeId(n) }), plane: AttachmentPlane::Alpha }
+}
+
+fn key_eb(w: Id, e: Id) -> AttachmentKey {
+    AttachmentKey { owner: AttachmentOwner::Edge(EdgeKey { warp_id: WarpId(w), local_id: EdgeId(e) }), plane: AttachmentPlane::Beta }
+}
+
+/// An instance body `1 -(0x21)-> 2` (+ sometimes node 3 and `2 -(0x22)-> 3`): every adversarial warp
+/// uses the SAME local ids, so unreachable instances look like reachable ones.
+fn adv_warp(rng: &mut Rng, id: Id, parent: Option<AttachmentKey>) -> AWarp {
+    let mut w = AWarp { id, root: small(1), parent, nodes: BTreeMap::new(), natts: BTreeMap::new(), edges: BTreeMap::new(), eatts: BTreeMap::new() };
+    for i in 1..=3u64 {
+        w.nodes.insert(small(i), small(0x10 + rng.below(2)));
+    }
+    w.edges.insert(small(0x21), (small(1), small(2), small(0x30)));
+    if rng.chance(1, 2) {
+        w.edges.insert(small(0x22), (small(2), small(3), small(0x31)));
+    }
+    w
+}
+
+/// Hangs a fresh child instance off a node-α (`is_edge == false`) or edge-β slot of `pw`.
+fn adv_child(rng: &mut Rng, st: &mut AState, next: &mut u64, pw: Id, is_edge: bool, slot: Id) -> Id {
+    let cid = small(*next);
+    *next += 1;
+    let parent = if is_edge { key_eb(pw, slot) } else { key_na(pw, slot) };
+    let child = adv_warp(rng, cid, Some(parent));
+    let p = st.warps.get_mut(&pw).unwrap();
+    if is_edge {
+        p.eatts.insert(slot, AAtt::Descend(cid));
+    } else {
+        p.natts.insert(slot, AAtt::Descend(cid));
+    }
+    st.warps.insert(cid, child);
+    cid
+}
+
+/// States built around three shapes (each case has at least one):
+///  A. β portals on edges whose target is already visited when the BFS processes the edge: the second of
+///     two parallel edges, a self loop, a back edge to the (instance) root — the child hangs ONLY there;
+///  B. portal chains of depth 4..=6 alternating node-α / edge-β slots;
+///  C. unreachable instances that look reachable: same local ids, portals pointing back into reachable
+///     warps, a parent key naming an existing slot that holds nothing / an Atom / a Descend to another warp.
+fn gen_adv(rng: &mut Rng) -> (AState, Key) {
+    let a1 = small(0xA1);
+    let mut st = AState::default();
+    let w = adv_warp(rng, a1, None);
+    st.warps.insert(a1, w);
+    let mut next = 0xA2u64;
+    let mask = rng.range(1, 7);
+    let mut chain: Vec<Id> = vec![a1];
+    if mask & 2 != 0 {
+        let depth = rng.range(4, 6);
+        let mut cur = a1;
+        for k in 0..depth {
+            let is_edge = (k + mask) % 2 == 0;
+            let slot = if is_edge { small(0x21) } else { small(rng.range(1, 2)) };
+            cur = adv_child(rng, &mut st, &mut next, cur, is_edge, slot);
+            chain.push(cur);
+        }
+    }
+    if mask & 1 != 0 {
+        let n = rng.range(1, 2);
+        for _ in 0..n {
+            let pw = *rng.pick(&chain);
+            let (eid, from, to) = match rng.below(4) {
+                0 => (0x24u64, 1u64, 2u64), // parallel to 0x21, higher id
+                1 => (0x20, 1, 2),          // parallel to 0x21, lower id
+                2 => {
+                    let x = rng.range(1, 2);
+                    (0x25, x, x) // self loop
+                }
+                _ => (0x26, 2, 1), // back edge to the instance root
+            };
+            if st.warps[&pw].edges.contains_key(&small(eid)) {
+                continue;
+            }
+            st.warps.get_mut(&pw).unwrap().edges.insert(small(eid), (small(from), small(to), small(0x32)));
+            adv_child(rng, &mut st, &mut next, pw, true, small(eid));
+        }
+    }
+    if mask & 4 != 0 {
+        let reach: Vec<Id> = st.warps.keys().copied().collect();
+        let n = rng.range(1, 2);
+        for k in 0..n {
+            let uid = small(0xC0 + k);
+            // parent slot: node 3 of a reachable warp (never a chain slot), holding nothing / Atom / other Descend
+            let pw = *rng.pick(&reach);
+            let parent = match rng.below(4) {
+                0 => None,
+                1 => Some(key_eb(pw, small(0x21))),
+                _ => Some(key_na(pw, small(3))),
+            };
+            let mut u = adv_warp(rng, uid, parent);
+            if let Some(AttachmentKey { owner: AttachmentOwner::Node(nk), .. }) = parent {
+                let p = st.warps.get_mut(&nk.warp_id.0).unwrap();
+                match rng.below(3) {
+                    0 => {}
+                    1 => {
+                        p.natts.insert(small(3), AAtt::Atom(small(0x70), uid.to_vec()));
+                    }
+                    _ => {
+                        // a Descend to ANOTHER (existing, reachable or not) warp
+                        let other = *rng.pick(&reach);
+                        p.natts.insert(small(3), AAtt::Descend(other));
+                    }
+                }
+            }
+            // portals pointing back into reachable warps
+            if rng.chance(2, 3) {
+                u.natts.insert(small(rng.range(1, 3)), AAtt::Descend(*rng.pick(&reach)));
+            }
+            if rng.chance(1, 2) {
+                u.eatts.insert(small(0x21), AAtt::Descend(*rng.pick(&reach)));
+            }
+            st.warps.insert(uid, u);
+            if rng.chance(1, 3) {
+                // a well-formed unreachable grandchild
+                adv_child(rng, &mut st, &mut next, uid, false, small(3));
+            }
+        }
+    }
+    let key = if rng.chance(1, 6) { (*rng.pick(&chain), small(1)) } else { (a1, small(1)) };
+    (st, key)
+}
+
+/// Coverage tags computed from the parsed case: a reference BFS in canonical edge order.
+fn cov_tags(st: &AState, root: &Key, tags: &mut Vec<String>) {
+    let mut nodes: BTreeSet<Key> = BTreeSet::new();
+    let mut depth: BTreeMap<Id, usize> = BTreeMap::new();
+    let mut q: VecDeque<Key> = VecDeque::new();
+    nodes.insert(*root);
+    depth.insert(root.0, 0);
+    q.push_back(*root);
+    let mut on_visited = false;
+    while let Some(cur) = q.pop_front() {
+        let Some(w) = st.warps.get(&cur.0) else { continue };
+        let d = depth[&cur.0];
+        let mut portals: Vec<Id> = Vec::new();
+        for (eid, (f, t, _)) in &w.edges {
+            if *f == cur.1 {
+                let fresh = nodes.insert((cur.0, *t));
+                if fresh {
+                    q.push_back((cur.0, *t));
+                }
+                if let Some(AAtt::Descend(c)) = w.eatts.get(eid) {
+                    if !fresh {
+                        on_visited = true;
+                    }
+                    portals.push(*c);
+                }
+            }
+        }
+        if let Some(AAtt::Descend(c)) = w.natts.get(&cur.1) {
+            portals.push(*c);
+        }
+        for c in portals {
+            depth.entry(c).or_insert(d + 1);
+            if let Some(cw) = st.warps.get(&c) {
+                if nodes.insert((c, cw.root)) {
+                    q.push_back((c, cw.root));
+                }
+            }
+        }
+    }
+    if on_visited {
+        tags.push("cov:portal-on-visited-target".into());
+    }
+    if depth.values().any(|d| *d >= 4) {
+        tags.push("cov:chain>=4".into());
+    }
+    let reach_local: BTreeSet<Id> = nodes.iter().map(|k| k.1).collect();
+    let lookalike = st.warps.values().any(|u| {
+        !depth.contains_key(&u.id)
+            && u.nodes.keys().any(|i| reach_local.contains(i))
+            && (u.natts.values().chain(u.eatts.values()).any(|a| matches!(a, AAtt::Descend(c) if depth.contains_key(c)))
+                || u.parent.is_some_and(|pk| match pk.owner {
+                    AttachmentOwner::Node(nk) => depth.contains_key(&nk.warp_id.0) && st.warps.get(&nk.warp_id.0).is_some_and(|p| p.nodes.contains_key(&nk.local_id.0)),
+                    AttachmentOwner::Edge(ek) => depth.contains_key(&ek.warp_id.0) && st.warps.get(&ek.warp_id.0).is_some_and(|p| p.edges.contains_key(&ek.local_id.0)),
+                }))
+    });
+    if lookalike {
+        tags.push("cov:unreachable-lookalike".into());
+    }
+}
+
 fn pick_root(rng: &mut Rng, st: &AState) -> Key {
     let a1 = small(0xA1);
     match rng.below(8) {
@@ -827,6 +1017,7 @@ fn oracle_root(t: &mut Toks, tier: Tier) -> Result<OracleOut, String> {
     }
     o.tags.push(format!("reach-nodes:{}", reach0.len().min(9)));
     o.tags.push(format!("reach-warps:{}", warps0.len()));
+    cov_tags(&ast, &key, &mut o.tags);
     if reach0.iter().any(|k| ast.warps.get(&k.0).is_some_and(|w| !w.nodes.contains_key(&k.1))) {
         o.tags.push("reach:dangling-key".into());
     }
@@ -851,6 +1042,15 @@ fn gen_root(rng: &mut Rng, tier: Tier) -> Vec<String> {
             let mut r = rng.fork();
             out.push(format!("{} {} {}", a_dump(&st, Some(&mut r)), hex(&key.0), hex(&key.1)));
         }
+    }
+    let n_adv = if tier == Tier::Thorough { 1500 } else { 46 };
+    for _ in 0..n_adv {
+        let (st, key) = gen_adv(rng);
+        if !a_traversable(&st, &key) {
+            continue;
+        }
+        let mut r = rng.fork();
+        out.push(format!("{} {} {}", a_dump(&st, Some(&mut r)), hex(&key.0), hex(&key.1)));
     }
     out
 }
@@ -899,6 +1099,10 @@ fn oracle_pair(t: &mut Toks, _tier: Tier) -> Result<OracleOut, String> {
         _ => {}
     }
     o.tags.push(format!("pair:{}", if same_content { "same-content" } else { "different-content" }));
+    cov_tags(&a, &ka, &mut o.tags);
+    cov_tags(&b, &kb, &mut o.tags);
+    o.tags.sort();
+    o.tags.dedup();
     o.nontrivial = a != b;
     Ok(o)
 }
@@ -939,15 +1143,78 @@ fn gen_pair(rng: &mut Rng, tier: Tier) -> Vec<String> {
             hex(&kb.1)
         ));
     }
+    let n_adv = if tier == Tier::Thorough { 1500 } else { 40 };
+    for case in 0..n_adv {
+        let (a, ka) = gen_adv(rng);
+        let b = adv_partner(rng, &a, &ka, case);
+        if !a_traversable(&a, &ka) || !a_traversable(&b, &ka) {
+            continue;
+        }
+        let mut r1 = rng.fork();
+        let mut r2 = rng.fork();
+        out.push(format!(
+            "{} {} {} {} {} {}",
+            a_dump(&a, Some(&mut r1)),
+            hex(&ka.0),
+            hex(&ka.1),
+            a_dump(&b, Some(&mut r2)),
+            hex(&ka.0),
+            hex(&ka.1)
+        ));
+    }
     out
+}
+
+/// A second state for an adversarial one: the same, the same minus everything unreachable (equal
+/// content expected), or one random single edit of it.
+fn adv_partner(rng: &mut Rng, a: &AState, ka: &Key, case: u64) -> AState {
+    match case % 3 {
+        0 => a.clone(),
+        1 => {
+            let (_, warps) = a_reach(a, ka);
+            let mut b = a.clone();
+            b.warps.retain(|w, _| warps.contains(w));
+            b
+        }
+        _ => {
+            let es: Vec<(String, AState, Key)> = edits(a, ka).into_iter().filter(|(_, _, k)| k == ka).collect();
+            if es.is_empty() {
+                a.clone()
+            } else {
+                es[rng.below(es.len() as u64) as usize].1.clone()
+            }
+        }
+    }
 }
 
 // ------------------------------------------------------------------ C06.ops  <state> <ops> <root warp> <root node>
 
+thread_local! {
+    static QUIET: std::cell::Cell<bool> = const { std::cell::Cell::new(false) };
+}
+
+/// Installed once: panics raised while `QUIET` is set on this thread (the accumulator's `assert!`s under
+/// `catch_unwind`) print nothing; every other panic goes to the previous hook.
+fn quiet_panic_hook() {
+    static ONCE: std::sync::Once = std::sync::Once::new();
+    ONCE.call_once(|| {
+        let prev = std::panic::take_hook();
+        std::panic::set_hook(Box::new(move |info| {
+            if !QUIET.with(|q| q.get()) {
+                prev(info);
+            }
+        }));
+    });
+}
+
 fn accum_after(st: &WarpState, ops: &[WarpOp], k: &Key) -> Result<Id, String> {
+    quiet_panic_hook();
     let ops = ops.to_vec();
-    std::panic::catch_unwind(std::panic::AssertUnwindSafe(|| accum::accum_build(st, ops, &nkey(k), [0u8; 32], 0).0))
-        .map_err(|_| "panic".to_string())
+    QUIET.with(|q| q.set(true));
+    let r = std::panic::catch_unwind(std::panic::AssertUnwindSafe(|| accum::accum_build(st, ops, &nkey(k), [0u8; 32], 0).0))
+        .map_err(|_| "panic".to_string());
+    QUIET.with(|q| q.set(false));
+    r
 }
 
 fn post_traversable(st: &WarpState, k: &Key) -> bool {
@@ -963,12 +1230,17 @@ fn imp_ops(t: &mut Toks) -> Result<String, String> {
     if !t.done() {
         return Err("trailing tokens".into());
     }
+    // the accumulator's own outcome on the ops, for every case (also when the store rejects them)
+    let aops = match accum_after(&st, &ops, &key) {
+        Ok(x) => hex(&x),
+        Err(_) => "panic".to_string(),
+    };
     Ok(match hook::apply_ops(&mut st, &ops) {
         Ok(()) => {
             let (r, a) = roots(&st, &key);
-            format!("ok root {} accum {}", hex(&r), hex(&a))
+            format!("ok root {} accum {} aops {aops}", hex(&r), hex(&a))
         }
-        Err(e) => format!("err {}", err_class(&e)),
+        Err(e) => format!("err {} aops {aops}", err_class(&e)),
     })
 }
 
@@ -978,8 +1250,17 @@ fn oracle_ops(t: &mut Toks, _tier: Tier) -> Result<OracleOut, String> {
     let key = (t.id()?, t.id()?);
     let mut o = OracleOut::default();
     let mut post = pre.clone();
+    {
+        let dump = state_str(&pre);
+        if let Ok(a) = a_parse(&mut Toks::new(&dump)) {
+            cov_tags(&a, &key, &mut o.tags);
+        }
+    }
     match hook::apply_ops(&mut post, &ops) {
-        Err(e) => o.tags.push(format!("store-err:{}", err_class(&e))),
+        Err(e) => {
+            o.tags.push(format!("store-err:{}", err_class(&e)));
+            o.tags.push(format!("store-err:accum-{}", if accum_after(&pre, &ops, &key).is_ok() { "root" } else { "panic" }));
+        }
         Ok(()) => {
             if !post_traversable(&post, &key) {
                 o.tags.push("skipped:not-traversable".into());
@@ -1027,7 +1308,113 @@ fn gen_ops(rng: &mut Rng, tier: Tier) -> Vec<String> {
         }
         out.push(format!("{da} {} {} {}", ops_str(&ops), sid(0xA1), sid(1)));
     }
+    // adversarial portal topologies: ops = real diff to a partner state (single edit / unreachable part dropped)
+    let n_adv = if tier == Tier::Thorough { 1500 } else { 50 };
+    for case in 0..n_adv {
+        let (a, ka) = gen_adv(rng);
+        let b = adv_partner(rng, &a, &ka, 1 + case % 2);
+        let (da, db) = (a_dump(&a, None), a_dump(&b, None));
+        let (Ok(ra), Ok(rb)) = (parse_state(&mut Toks::new(&da)), parse_state(&mut Toks::new(&db))) else { continue };
+        let mut ops = hook::diff_state(&ra, &rb);
+        if case % 5 == 4 && !ops.is_empty() {
+            let i = rng.below(ops.len() as u64) as usize;
+            ops.remove(i);
+        }
+        out.push(format!("{da} {} {} {}", ops_str(&ops), hex(&ka.0), hex(&ka.1)));
+    }
+    // op soup: 1..=4 arbitrary ops over tiny id universes (mostly rejected by the store; the accumulator's
+    // own outcome — root or panic — is compared with the model on every one of them)
+    let n_soup = if tier == Tier::Thorough { 3000 } else { 70 };
+    for case in 0..n_soup {
+        let da = if case % 3 == 0 {
+            let (a, _) = gen_adv(rng);
+            a_dump(&a, None)
+        } else {
+            gen_state(rng, 4, 3, true).dump()
+        };
+        let Ok(pre) = parse_state(&mut Toks::new(&da)) else { continue };
+        let k = rng.range(1, 4);
+        let ops: Vec<WarpOp> = (0..k).map(|_| soup_op(rng, &pre)).collect();
+        out.push(format!("{da} {} {} {}", ops_str(&ops), sid(0xA1), sid(1)));
+    }
     out
+}
+
+/// One arbitrary op: ids from tiny universes that overlap the generated states (warps 0xA1.., nodes 1..4,
+/// edges 0x21..0x28), every plane/owner combination, every `PortalInit`.
+fn soup_op(rng: &mut Rng, pre: &WarpState) -> WarpOp {
+    let insts = hook::instances(pre);
+    let warp = |rng: &mut Rng| -> Id {
+        if rng.chance(1, 8) || insts.is_empty() {
+            small(*rng.pick(&[0xAFu64, 0xB0, 0xA2]))
+        } else {
+            rng.pick(&insts).warp_id.0
+        }
+    };
+    let node = |rng: &mut Rng| small(rng.range(1, 4));
+    let edge = |rng: &mut Rng| small(*rng.pick(&[0x20u64, 0x21, 0x22, 0x23, 0x24, 0x25, 0x26, 0x28]));
+    let key = |rng: &mut Rng, w: Id| {
+        let plane = if rng.chance(1, 2) { AttachmentPlane::Alpha } else { AttachmentPlane::Beta };
+        let (owner, right) = if rng.chance(1, 2) {
+            (AttachmentOwner::Node(NodeKey { warp_id: WarpId(w), local_id: NodeId(small(rng.range(1, 4))) }), AttachmentPlane::Alpha)
+        } else {
+            (
+                AttachmentOwner::Edge(EdgeKey { warp_id: WarpId(w), local_id: EdgeId(small(*rng.pick(&[0x21u64, 0x22, 0x23, 0x28]))) }),
+                AttachmentPlane::Beta,
+            )
+        };
+        // mostly on-plane
+        AttachmentKey { owner, plane: if rng.chance(3, 4) { right } else { plane } }
+    };
+    let w = warp(rng);
+    match rng.below(10) {
+        0 => WarpOp::UpsertNode { node: NodeKey { warp_id: WarpId(w), local_id: NodeId(node(rng)) }, record: NodeRecord { ty: TypeId(small(0x13)) } },
+        1 => WarpOp::DeleteNode { node: NodeKey { warp_id: WarpId(w), local_id: NodeId(node(rng)) } },
+        2 => WarpOp::UpsertEdge {
+            warp_id: WarpId(w),
+            record: EdgeRecord { id: EdgeId(edge(rng)), from: NodeId(node(rng)), to: NodeId(node(rng)), ty: TypeId(small(0x33)) },
+        },
+        3 => {
+            // DeleteEdge: mostly with the edge's real source
+            let e = edge(rng);
+            let from = hook::stores(pre)
+                .into_iter()
+                .find(|(sw, _)| sw.0 == w)
+                .and_then(|(_, g)| g.iter_edges().flat_map(|(_, v)| v.iter()).find(|r| r.id.0 == e).map(|r| r.from.0))
+                .filter(|_| rng.chance(4, 5))
+                .unwrap_or_else(|| node(rng));
+            WarpOp::DeleteEdge { warp_id: WarpId(w), from: NodeId(from), edge_id: EdgeId(e) }
+        }
+        4 | 5 => {
+            let k = key(rng, w);
+            let value = match rng.below(3) {
+                0 => None,
+                1 => Some(AttachmentValue::Atom(AtomPayload::new(TypeId(small(0x73)), Bytes::from(vec![9u8])))),
+                _ => Some(AttachmentValue::Descend(WarpId(warp(rng)))),
+            };
+            WarpOp::SetAttachment { key: k, value }
+        }
+        6 | 7 => {
+            // OpenPortal: new child, an existing instance (right or wrong parent / root), missing owner
+            let child = if rng.chance(1, 2) { warp(rng) } else { small(0xB1) };
+            let k = match insts.iter().find(|i| i.warp_id.0 == child).and_then(|i| i.parent) {
+                Some(pk) if rng.chance(2, 3) => pk,
+                _ => key(rng, w),
+            };
+            let child_root = match insts.iter().find(|i| i.warp_id.0 == child) {
+                Some(i) if rng.chance(3, 4) => i.root_node.0,
+                _ => node(rng),
+            };
+            let init = if rng.chance(1, 2) { PortalInit::RequireExisting } else { PortalInit::Empty { root_record: NodeRecord { ty: TypeId(small(0x10 + rng.below(2))) } } };
+            WarpOp::OpenPortal { key: k, child_warp: WarpId(child), child_root: NodeId(child_root), init }
+        }
+        8 => WarpOp::DeleteWarpInstance { warp_id: WarpId(w) },
+        _ => {
+            let pw = warp(rng);
+            let parent = if rng.chance(1, 2) { None } else { Some(key(rng, pw)) };
+            WarpOp::UpsertWarpInstance { instance: WarpInstance { warp_id: WarpId(w), root_node: NodeId(node(rng)), parent } }
+        }
+    }
 }
 
 // ------------------------------------------------------------------ C06.wsc  <state>
